@@ -328,6 +328,15 @@ def c15c(ck, prog):
     bl = [f for f in prog.fns.values() if f.name == "openapi_map_operation" and f.trait == "ohkami::fang::middleware::Fangs" and f.self_ty == "F"]
     ok = bool(bl) and any(re.search(r"fang::Fang::openapi_map_operation$", c.decl or "") for c in bl[0].calls())
     ck.ob(R, "blanket-forwards", ok, bl[0].loc(None) if bl else "", "" if ok else "the blanket Fangs impl does not forward openapi_map_operation to the fang", how="<F as Fang>::openapi_map_operation(self, op)")
+    # the next link: a fang written as a FangAction (BasicAuth, user-written actions) reaches the document only if the blanket
+    # `impl<A: FangAction> Fang for A` forwards to the action's openapi_map_operation (Fang's own default is the identity)
+    fa_impls = [f for f in prog.fns.values() if f.name == "openapi_map_operation" and f.trait == "ohkami::fang::middleware::util::FangAction" and f.self_ty]
+    if fa_impls:
+        al = [f for f in prog.fns.values() if f.name == "openapi_map_operation" and f.trait == "ohkami::fang::Fang" and f.self_ty == "A"]
+        ok = bool(al) and any(re.search(r"FangAction::openapi_map_operation$", c.decl or c.callee or "") for c in al[0].calls())
+        ck.ob(R, "action-blanket-forwards", ok, al[0].loc(None) if al else fa_impls[0].loc(None),
+              "" if ok else "%d fang(s) document themselves through FangAction::openapi_map_operation (%s), but the blanket `impl Fang for A: FangAction` does not forward to it (Fang's default is the identity): their security requirements never reach the document while the routes still answer 401" % (len(fa_impls), ", ".join(sorted({f.self_ty[-40:] for f in fa_impls}))),
+              how="<A as FangAction>::openapi_map_operation(self, op) from the blanket Fang impl")
 
 
 def c15d(ck, prog):
